@@ -310,6 +310,10 @@ pub fn run_prop(def: &PropDef, args: &RunArgs) -> (Part, i32) {
         for f in files {
             let Ok(s) = std::fs::read_to_string(&f) else { continue };
             let Ok(rf) = serde_json::from_str::<ReplayFile>(&s) else { continue };
+            // a replay belongs to the engine that produced it
+            if rf.scenario.needs_rt() != def.is_rt() {
+                continue;
+            }
             part.replays_run += 1;
             part.evaluations += 1;
             let r = run_case(def, &rf.scenario);
